@@ -18,8 +18,12 @@ ATTRSETS = [
     {"origin": 0, "path": [64999], "next_hop": "10.0.0.2", "med": 10},
     {"origin": 1, "path": [64999, 100], "next_hop": "10.0.0.2", "med": 20},
     {"origin": 2, "path": [300], "next_hop": "10.0.0.3"},
+    # communities NOT in ascending order (neither numerically nor as text)
+    {"origin": 0, "path": [64999, 7], "next_hop": "10.0.0.2", "communities": [(65001 << 16) | 20, (100 << 16) | 3, (9 << 16) | 70000 % 65536]},
 ]
-FLOW_RULES = [("192.88.2.0/24", None, None), ("192.88.3.0/24", "10.9.0.0/16", None), ("192.88.4.0/24", None, 6)]
+# (destination, source, protocol, further components): the last two combine a type >= 10 with types 1..9
+FLOW_RULES = [("192.88.2.0/24", None, None, b""), ("192.88.3.0/24", "10.9.0.0/16", None, b""), ("192.88.4.0/24", None, 6, b""),
+              ("192.88.5.0/24", None, 17, bytes([0x0a, 0x81, 100])), ("192.88.6.0/24", None, 6, bytes([0x0b, 0x81, 46]))]
 FLOW_ACTIONS = [bytes([0x80, 0x06, 0, 0, 0, 0, 0, 0]), bytes([0x80, 0x06, 0, 0, 0x49, 0x74, 0x24, 0x00]),
                 bytes([0x80, 0x08, 0, 100, 0, 0, 0, 200])]
 VPN_ROUTES = [(25, 100, 100, "11.11.11.11/32"), (26, 100, 100, "11.11.12.0/24"), (27, 200, 1, "11.11.11.11/32")]
@@ -34,6 +38,7 @@ VPN_RT_JSON = [["route-target:100:1"], ["route-target:100:2"]]
 
 class RibCtx(BaseCtx):
     escape_is_violation = False
+    exceptions_end_run = False
     prop = "C19"
 
     def __init__(self, cfg, tier):
@@ -132,18 +137,26 @@ class RibCtx(BaseCtx):
         d = {"origin": a["origin"], "as_path": [(2, [first] + a["path"])], "next_hop": a["next_hop"]}
         if "med" in a:
             d["med"] = a["med"]
+        if "communities" in a:
+            d["communities"] = list(a["communities"])
         return d
 
     def gen_ipv4(self, rng):
         nl = sorted(set(rng.pick(PREFIXES) for _ in range(rng.randrange(0, 4))))
         wd = sorted(set(rng.pick(PREFIXES) for _ in range(rng.randrange(0, 3)))) if rng.chance(0.5) else []
-        wd = [p for p in wd if p not in nl]      # same prefix in both fields: left out (DESIGN.md C19)
+        if wd and nl and rng.chance(0.15):
+            # the same prefix in both fields of one UPDATE (RFC 4271 4.3: to be processed; the announcement
+            # stands).  The table is judged, the counter is not (one change or two is not fixed by the property)
+            wd = sorted(set(wd + [rng.pick(nl)]))
+            self.stats["gen:prefix_withdrawn_and_announced_in_one_update"] += 1
+        else:
+            wd = [p for p in wd if p not in nl]
         if not nl and not wd:
             nl = [rng.pick(PREFIXES)]
         if wd and rng.chance(0.2):
             wd = wd + [rng.pick(wd)]              # a prefix listed twice among the withdrawn routes (redundant, legal)
             self.stats["gen:duplicate_withdrawn_prefix"] += 1
-        attrs = self.attrs_for(rng.randrange(3), False) if nl else {}
+        attrs = self.attrs_for(rng.randrange(len(ATTRSETS)), False) if nl else {}
         dirty = None
         if rng.chance(0.25):
             dirty = rng.pick([0xFF, 0x55, 0x01])      # padding bits of the prefixes are not zero
@@ -162,11 +175,10 @@ class RibCtx(BaseCtx):
         return rp.encode_attrs({"origin": 0, "as_path": [(2, [self.cfg["remote_as"]])]}, self.as4)
 
     def gen_flow(self, rng):
-        i = rng.randrange(3)
-        dst, src, proto = FLOW_RULES[i]
-        nlri = rp.flowspec_nlri(dst, src, proto)
+        i = rng.randrange(len(FLOW_RULES))
+        nlri = rp.flowspec_nlri(*FLOW_RULES[i])
         if rng.chance(0.3):
-            j = (i + 1) % 3
+            j = (i + 1) % len(FLOW_RULES)
             nlri += rp.flowspec_nlri(*FLOW_RULES[j])
         if rng.chance(0.35):
             raw = rp.mp_unreach(1, 133, nlri)
@@ -222,16 +234,23 @@ class RibCtx(BaseCtx):
     def rest_flow(self, rng):
         i = rng.randrange(3)
         if rng.chance(0.35):
-            return {"attr": {"15": {"afi_safi": [1, 133], "withdraw": [FLOW_JSON[i]]}}}
-        return {"attr": {"1": 0, "2": [], "5": 100, "14": {"afi_safi": [1, 133], "nexthop": "", "nlri": [FLOW_JSON[i]]},
-                         "16": rng.pick(FLOW_ACT_JSON)}}
+            return self.rest_mixed(rng, {"attr": {"15": {"afi_safi": [1, 133], "withdraw": [FLOW_JSON[i]]}}})
+        return self.rest_mixed(rng, {"attr": {"1": 0, "2": [], "5": 100, "14": {"afi_safi": [1, 133], "nexthop": "", "nlri": [FLOW_JSON[i]]},
+                                              "16": rng.pick(FLOW_ACT_JSON)}})
 
     def rest_vpn(self, rng):
         i = rng.randrange(3)
         if rng.chance(0.35):
-            return {"attr": {"15": {"afi_safi": [1, 128], "withdraw": [VPN_JSON[i]]}}}
-        return {"attr": {"1": 0, "2": [], "5": 100, "16": rng.pick(VPN_RT_JSON),
-                         "14": {"afi_safi": [1, 128], "nexthop": {"rd": "0:0", "str": "2.2.2.2"}, "nlri": [VPN_JSON[i]]}}}
+            return self.rest_mixed(rng, {"attr": {"15": {"afi_safi": [1, 128], "withdraw": [VPN_JSON[i]]}}})
+        return self.rest_mixed(rng, {"attr": {"1": 0, "2": [], "5": 100, "16": rng.pick(VPN_RT_JSON),
+                                              "14": {"afi_safi": [1, 128], "nexthop": {"rd": "0:0", "str": "2.2.2.2"}, "nlri": [VPN_JSON[i]]}}})
+
+    def rest_mixed(self, rng, body):
+        """One request that also withdraws classic IPv4 routes next to the MP attribute (RFC 4760 allows it)."""
+        if rng.chance(0.2):
+            body["withdraw"] = sorted(set(rng.pick(PREFIXES) for _ in range(rng.randrange(1, 3))))
+            self.stats["gen:rest_mp_with_ipv4_withdraw"] += 1
+        return body
 
     @property
     def as4(self):
@@ -394,7 +413,8 @@ class RibCtx(BaseCtx):
                                 "Adj-RIB-In[%s] = %s; the last announcement carried %s" % (pfx, canon(rib[pfx]), tbl[pfx]))
         if has_mp and (d["withdrawn"] or d["nlri"]):
             family = family + "+ipv4"
-        self.version_check("rx", fam_changed, v_before, v_after, "received UPDATE (%s)" % family)
+        skip = ("ipv4",) if set(d["withdrawn"]) & set(d["nlri"]) else ()
+        self.version_check("rx", fam_changed, v_before, v_after, "received UPDATE (%s)" % family, skip)
 
     @staticmethod
     def split_nlri(family, nlri):
@@ -437,6 +457,18 @@ class RibCtx(BaseCtx):
                         del tbl[k]
             self.stats["tx_%s_updates" % fam] += 1
             what = "sent %s update" % fam
+            if body.get("withdraw"):
+                # classic IPv4 withdrawals in the same request
+                tbl = self.tx["ipv4"]
+                for pfx in body["withdraw"]:
+                    if pfx in tbl:
+                        fam_changed["ipv4"] = True
+                        del tbl[pfx]
+                what += " + ipv4 withdraw"
+                rib = self.world.factory.fsm.protocol.adj_rib_out.get("ipv4", {})
+                if sorted(rib) != sorted(tbl):
+                    raise Violation("C19", "rib-out", "prefix-set-differs",
+                                    "after REST send/update %s Adj-RIB-Out holds %s; model %s" % (body, sorted(rib), sorted(tbl)))
         else:
             tbl = self.tx["ipv4"]
             aid = repr(sorted(attr.items()))
@@ -457,9 +489,12 @@ class RibCtx(BaseCtx):
                                 "after REST send/update %s Adj-RIB-Out holds %s; model %s" % (body, sorted(rib), sorted(tbl)))
         self.version_check("tx", fam_changed, v_before, v_after, what)
 
-    def version_check(self, direction, fam_changed, v_before, v_after, what):
+    def version_check(self, direction, fam_changed, v_before, v_after, what, skip=()):
         name = {"rx": "received", "tx": "send"}[direction]
         for fam in ("ipv4", "flowspec", "mpls_vpn", "sr_policy"):
+            if fam in skip:
+                self.stats["version_not_judged(prefix_in_both_fields)"] += 1
+                continue
             b = v_before[direction].get(fam)
             a = v_after[direction].get(fam)
             ch = fam_changed.get(fam, False)
@@ -495,7 +530,7 @@ class RibProfile(BaseProfile):
             "attributes, several routes per message, withdraw of absent routes), REST send/update for the sent side (IPv4, "
             "flowspec, VPNv4), adj-rib-in/out queries, session drops (close, reset, NOTIFICATION, operator stop) and "
             "re-establishment; 30 % of the announcements carry their attributes in a shuffled wire order; 25 % of the runs hold back the completion of the agent's own closes until the next session has routes, 25 % let the application handler raise ENOSPC at message callbacks; non-trivial = reached Established; distinct = distinct (op, state) sequence")
-    probes = ["op:hfail", "gen:late_close_during_next_session", "gen:attributes_in_unusual_order", "gen:duplicate_withdrawn_prefix", "gen:prefixes_with_nonzero_padding", "gen:rest_announce_without_local_pref", "gen:mixed_mp_and_ipv4_updates", "rx_ipv4_updates", "rx_flowspec_updates", "rx_mpls_vpn_updates", "tx_ipv4_updates", "tx_flowspec_updates",
+    probes = ["gen:rest_mp_with_ipv4_withdraw", "gen:default_handler_runs", "op:hfail", "gen:late_close_during_next_session", "gen:attributes_in_unusual_order", "gen:duplicate_withdrawn_prefix", "gen:prefixes_with_nonzero_padding", "gen:rest_announce_without_local_pref", "gen:mixed_mp_and_ipv4_updates", "rx_ipv4_updates", "rx_flowspec_updates", "rx_mpls_vpn_updates", "tx_ipv4_updates", "tx_flowspec_updates",
               "tx_mpls_vpn_updates", "session_drops", "withdraw_of_absent_route", "reannounce_same_attrs",
               "reannounce_changed_attrs", "rib_queries", "version_should_increase:rx:flowspec",
               "version_should_increase:rx:mpls_vpn", "version_should_increase:tx:flowspec"]
@@ -512,6 +547,11 @@ class RibProfile(BaseProfile):
             cfg["four_bytes_as"] = False
         cfg["max_ops"] = rng.pick([20, 40, 80])
         cfg["late_close"] = rng.pick([2, 4, 8]) if rng.chance(0.25) else None
+        if rng.chance(0.2):
+            # the stock DefaultHandler (message log on the simulated file system) is the application
+            cfg["handler"] = "default"
+            cfg["write_disk"] = True
+            cfg["rotate_bytes"] = rng.pick([2000, 10 ** 9])
         cfg["p_hfail"] = rng.pick([0.03, 0.1]) if rng.chance(0.25) else None
         caps = [rp.cap_mp(1, 1), rp.cap_mp(1, 133), rp.cap_mp(1, 128), rp.cap_rr()]
         if rng.chance(0.7):
